@@ -69,7 +69,11 @@ class InterpolatedValue:
         if self.is_sandboxed:
             context_id = value._actual_context_id
             sandbox = value._actual_sandbox
-            self.context = sandbox.get_context(context_id)
+            try:
+                self.context = sandbox.get_context(context_id)
+            except IndexError:
+                # The history of executions was cleared (clear_context) while this result was kept
+                self.context = None
         else:
             self.context = None
 
@@ -210,7 +214,7 @@ class RuntimeAssertionFeedback(AssertionFeedback):
         """ Retrieve any sandbox contexts associated with these values. """
         contexts = []
         for wrapped_value in wrapped_values:
-            if wrapped_value.is_sandboxed:
+            if wrapped_value.is_sandboxed and wrapped_value.context:
                 contexts.append(wrapped_value.context)
             if isinstance(wrapped_value.value, Sandbox):
                 run_contexts = wrapped_value.value.get_context()
